@@ -93,8 +93,11 @@ class FitInfoFile(object):
                     info.meta = self._first_meta
                     yield info
         else:
+            # The functions that loop over the results select fits in place
+            # (info.keep), so hand out copies to leave the caller's results
+            # untouched, as is the case when reading from a file.
             for info in self._fits:
-                yield info
+                yield info.copy()
 
 
 class FitInfoMeta(object):
@@ -119,6 +122,15 @@ class FitInfo(object):
         self.model_name = None
         self.model_fluxes = None
         self.meta = FitInfoMeta()
+
+    def copy(self):
+        """
+        Return a copy of the fit results (the arrays themselves are shared,
+        since they are never modified in place).
+        """
+        info = FitInfo()
+        info.__dict__.update(self.__dict__)
+        return info
 
     def sort(self):
         """
